@@ -15,7 +15,8 @@
      tmpIn+blockSize passes maxBufferSize) is NOT modelled: the model keeps the bytes,
      not their addresses.
    * destination capacities are assumed sufficient (every dstMaxSize_tooSmall test is
-     omitted); malloc succeeds; dictSize > INT_MAX is modelled but never exercised.
+     omitted); malloc succeeds; dictSize > INT_MAX is modelled but never exercised (and the
+     state it leaves behind is not modelled).
    * the lz4/lz4hc context type bookkeeping (lz4CtxAlloc/lz4CtxType) is not modelled. *)
 From Coq Require Import ZArith List Bool.
 From LZ4V Require Import Spec.BlockSpec Spec.XXH32 Gen.Consts.
@@ -124,12 +125,21 @@ Definition headerChecksum (desc : list byte) : Z := (xxh32 0 desc / 256) mod 256
 Definition frame_header (p : prefs) : list byte :=
   writeLE32 LZ4F_MAGICNUMBER ++ descriptor p ++ [headerChecksum (descriptor p)].
 
-(* LZ4F_compressBegin_internal (dictBuffer and cdict are never both given) *)
+(* LZ4F_isError on a size_t result *)
+Definition isError (v : Z) : bool := errZ FC_ERR_maxCode <? v.
+
+(* LZ4F_compressBegin_internal (dictBuffer and cdict are never both given).
+   An invalid blockSizeID is refused (FORWARD_IF_ERROR on LZ4F_getBlockSize); at that point the
+   preferences have already been copied into the context. *)
 Definition compressBegin_internal (c : cctx) (dictBuffer cdict : option (list byte)) (po : option prefs)
   : res * cctx :=
   let p0 := match po with Some p => p | None => prefs_null end in
   let p := if p_bsid p0 =? 0 then set_bsid p0 LZ4F_BLOCKSIZEID_DEFAULT else p0 in
   let maxBlock := getBlockSize (p_bsid p) in
+  if isError maxBlock then
+    (Err (U64 - maxBlock),
+     mkCctx p (c_stage c) (c_cdict c) (c_dict c) maxBlock (c_tmp c) (c_totalIn c) (c_xxh c) (c_mode c) (c_hist c) (c_nblk c))
+  else
   match (match dictBuffer with Some d => if FC_INT_MAX <? len d then None else Some (lastZ FC_64KB d)
                              | None => Some [] end) with
   | None => (Err FC_ERR_parameter_invalid, c)
